@@ -29,6 +29,24 @@ fn wire(n: usize) -> String {
     serde_json::to_string(&req.operation).expect("json")
 }
 
+/// 36 single-valued headers plus one header with four values (40 header lines: long enough that an unstable sort
+/// really permutes equal elements); one `.header` call with a slice of values
+fn wire_multi() -> String {
+    let mut b = Http::<Effect, Event>::get("http://example.com/path?q=1");
+    for i in 0..18 {
+        b = b.header(format!("x-h{i:02}").as_str(), "v");
+    }
+    let langs: Vec<crux_http::http::headers::HeaderValue> = ["en-GB", "en", "fr", "de"].iter().map(|l| l.parse().expect("header value")).collect();
+    b = b.header("accept-language", langs.as_slice());
+    for i in 18..36 {
+        b = b.header(format!("x-h{i:02}").as_str(), "v");
+    }
+    let mut cmd: Command<Effect, Event> = b.build().then_send(Event::Got);
+    let Effect::Http(req) = cmd.effects().next().expect("one request");
+    let langs: Vec<&str> = req.operation.headers.iter().filter(|h| h.name == "accept-language").map(|h| h.value.as_str()).collect();
+    format!("{}|{}", langs.join(","), serde_json::to_string(&req.operation).expect("json"))
+}
+
 fn response_with(headers: &[(&str, &str)]) -> Response<Vec<u8>> {
     let mut cmd: Command<Effect, Event> = Http::<Effect, Event>::get("http://example.com/").build().then_send(Event::Got);
     let Effect::Http(mut req) = cmd.effects().next().expect("one request");
@@ -52,6 +70,12 @@ fn main() {
         let forms: std::collections::BTreeSet<String> = (0..40).map(|_| wire(n)).collect();
         println!("request-{n}-headers REAL distinct-wire-forms={} | EXPECT distinct-wire-forms=1", forms.len());
     }
+    let r = std::panic::catch_unwind(|| {
+        let forms: std::collections::BTreeSet<String> = (0..60).map(|_| wire_multi()).collect();
+        let lang_orders: std::collections::BTreeSet<String> = forms.iter().map(|f| f.split('|').next().unwrap().to_string()).collect();
+        format!("distinct-wire-forms={} value-orders={}", forms.len(), lang_orders.into_iter().collect::<Vec<_>>().join(";"))
+    });
+    println!("request-40-lines-multivalue REAL {} | EXPECT distinct-wire-forms=1 value-orders=en-GB,en,fr,de", r.unwrap_or_else(|_| "PANIC".into()));
     // equality of responses: equal contents <=> equal
     let r = std::panic::catch_unwind(|| {
         let a = [("x-a", "1"), ("x-b", "2"), ("x-c", "3"), ("x-d", "4")];
